@@ -164,13 +164,13 @@ def run(tier):
         # directories with 255 .. 300 entries: genuine, and with the last entry MAC'd under the index reduced modulo 256
         from .c14 import crafted_bf3
         nbig = 0
-        for name, b in crafted_bf3(r, big=True):
+        for name, b in crafted_bf3(r, big=not os.environ.get("VERIF_ENVPASS")):      # (sizes: first pass only)
             if name.startswith("entries-"):
                 s = io.StringIO()
                 L.Bf3File.write_bf3_format(s, {}, b)
                 ev = L.rec_read(rec, s.getvalue(), L.ZERO_KEY, True, False, wd, _cost=300, label=name)
                 nbig += 1 if ev["kind"] == "ok" else 0
-        if nbig < 4 and not rep.violations:
+        if nbig < 4 and not rep.violations and not os.environ.get("VERIF_ENVPASS"):
             raise MachineryError("non-vacuity: the genuine large directories were not accepted")
         # a directory with 2^16 entries (thorough tier; ~4 MB): the genuine file, and the file whose last entry (index 65536) is
         # MAC'd with the index reduced modulo 2^16 (= 0).  The specification judges the deciding entry (op bf3.bigdir)
